@@ -4,6 +4,7 @@ import Driver.Util
 import Driver.ExprProto
 import Driver.BlockProto
 import Driver.SortProto
+import Driver.TriviaProto
 /-
 `modeld`: one request per line on stdin, one answer per line on stdout.
 The harness runs the real code on the same requests and diffs the answers.
@@ -59,6 +60,7 @@ def handle (line : String) : String :=
   | ["expr", v, entry, i, o] => Driver.ExprProto.handleExpr v entry i o
   | ["block", v, rs, re, body] => Driver.BlockProto.handle v rs re body
   | ["sortreq", v, en, body] => Driver.SortProto.handle v en body
+  | ["trivia", eol, body] => Driver.TriviaProto.handle eol body
   | ["faithful", i] => Driver.ExprProto.handleFaithful i
   | ["semeq", i, o] => Driver.ExprProto.handleSem i o
   | _ => "bad-op"
